@@ -330,7 +330,6 @@ func atomicLoad(fr *frame, args []value) value {
 	if p == nil {
 		panic(fr.i.nilDeref())
 	}
-	fr.i.syncPoint("atomic")
 	return *p
 }
 
@@ -339,7 +338,6 @@ func atomicStore(fr *frame, args []value) value {
 	if p == nil {
 		panic(fr.i.nilDeref())
 	}
-	fr.i.syncPoint("atomic")
 	fr.i.noteStore(p)
 	*p = args[1]
 	return nil
@@ -347,7 +345,6 @@ func atomicStore(fr *frame, args []value) value {
 
 func atomicSwap(fr *frame, args []value) value {
 	p := args[0].(*value)
-	fr.i.syncPoint("atomic")
 	old := *p
 	fr.i.noteStore(p)
 	*p = args[1]
@@ -357,8 +354,7 @@ func atomicSwap(fr *frame, args []value) value {
 func atomicAdd(k types.BasicKind) intrinsic {
 	return func(fr *frame, args []value) value {
 		p := args[0].(*value)
-		fr.i.syncPoint("atomic")
-		t := types.Typ[k]
+			t := types.Typ[k]
 		nv := fr.i.binop(tokenADD, t, t, *p, args[1])
 		fr.i.noteStore(p)
 		*p = nv
@@ -369,7 +365,6 @@ func atomicAdd(k types.BasicKind) intrinsic {
 func atomicCAS(fr *frame, args []value) value {
 	i := fr.i
 	p := args[0].(*value)
-	i.syncPoint("atomic")
 	var eq value
 	switch old := args[1].(type) {
 	case unsafePtr:
@@ -496,7 +491,6 @@ func init() {
 		"runtime.Gosched":      func(fr *frame, args []value) value { fr.i.syncPoint("gosched"); return nil },
 		"runtime.NumCPU":       func(fr *frame, args []value) value { return 4 },
 		"runtime.GOMAXPROCS":   func(fr *frame, args []value) value { return 4 },
-		"runtime.NumGoroutine": func(fr *frame, args []value) value { return fr.i.numTasks() },
 		"runtime.Caller": func(fr *frame, args []value) value {
 			return tuple{uintptr(0), "", 0, false}
 		},
@@ -816,7 +810,6 @@ func (i *interpreter) syncPoint(what string) {
 	}
 }
 
-func (i *interpreter) numTasks() int { return 1 }
 
 // patternIntrinsic covers families of functions (loggers, no-op telemetry).
 func patternIntrinsic(fn *ssa.Function, name string) intrinsic {
